@@ -77,11 +77,18 @@ def abstract_list(ex, st, args, kwargs, fn):
     return [(st, ex.alloc(st, ListObj(L.LT([L.Abs(name.as_string(), list(args[1:]))]))))]
 
 
+VALUE_RANGES = {"rc_value": lambda ex, t: _range_enum(ex, t, ["ConditionFulfilledValue"])}
+VALUE_TYPES = {"rc_value": "enum:ConditionFulfilledValue"}
+
+
 def abstract_value(ex, st, args, kwargs, fn):
     name = z3.simplify(Sc.sv(args[0].t))
     if not z3.is_string_value(name):
         raise Unsupported("abstract_value with a symbolic name")
-    return [(st, SV(_uf_app(ex, st, "val_" + name.as_string(), args[1:]), None))]
+    nm = name.as_string()
+    if nm in VALUE_RANGES:
+        _axiom(ex, "val_" + nm, len(args) - 1, lambda t: VALUE_RANGES[nm](ex, t))
+    return [(st, SV(_uf_app(ex, st, "val_" + nm, args[1:]), VALUE_TYPES.get(nm)))]
 
 
 def concat(ex, st, args, kwargs, fn):
